@@ -150,7 +150,7 @@ func runUnits(r *vk.Run) {
 		}
 	}
 	// random values
-	n := r.Pick(6000, 400000)
+	n := r.Pick(6000, 1200000)
 	for i := 0; i < n; i++ {
 		if !r.Mine(i) {
 			continue
